@@ -170,12 +170,75 @@ def _case_size(v):
     return len(json.dumps(v["case"], sort_keys=True))
 
 
+# ------------------------------------------------------------------ owning the library's module-level state
+# A shard must be a function of its argument alone, otherwise a violation that depends on what the same worker
+# process executed before cannot be replayed.  The only state the library can carry from one call to the next is
+# module-level: containers (tables, caches) and functools caches.  They are snapshotted before the first library call
+# of the process (the pool workers are forked afterwards and inherit the snapshot) and restored at the start of every
+# shard; containers that did not exist at import time are removed.
+_LIB_SNAP = [None]
+
+
+def _lib_modules():
+    return [m for n, m in sorted(sys.modules.items()) if (n == "mir_eval" or n.startswith("mir_eval.")) and m]
+
+
+def snapshot_library_state():
+    import copy
+    if _LIB_SNAP[0] is None:
+        snap = {}
+        for m in _lib_modules():
+            snap[(m.__name__, None)] = True        # module present at snapshot time
+            for n, v in list(vars(m).items()):
+                if not n.startswith("__") and isinstance(v, (dict, list, set, collections.deque)):
+                    try:
+                        snap[(m.__name__, n)] = copy.deepcopy(v)
+                    except Exception:  # noqa  (a container of modules/functions: not state the library writes to)
+                        pass
+        _LIB_SNAP[0] = snap
+    return _LIB_SNAP[0]
+
+
+def reset_library_state():
+    """restore the module-level state of mir_eval to what it was when the snapshot was taken"""
+    import copy
+    snap = _LIB_SNAP[0]
+    if snap is None:
+        return
+    for m in _lib_modules():
+        if (m.__name__, None) not in snap:
+            continue                           # imported after the snapshot: nothing known about its initial state
+        for n, v in list(vars(m).items()):
+            if n.startswith("__"):
+                continue
+            if isinstance(v, (dict, list, set, collections.deque)):
+                key = (m.__name__, n)
+                if key not in snap:
+                    if not any(isinstance(x, type(sys)) for x in (v.values() if isinstance(v, dict) else v)):
+                        delattr(m, n)          # created after import: a cache
+                    continue
+                try:
+                    same = (v == snap[key]) and type(v) is type(snap[key])
+                except Exception:  # noqa
+                    same = False
+                if not same:
+                    fresh = copy.deepcopy(snap[key])
+                    v.clear()
+                    (v.extend if isinstance(v, (list, collections.deque)) else v.update)(fresh)
+            elif callable(getattr(v, "cache_clear", None)):
+                try:
+                    v.cache_clear()
+                except Exception:  # noqa
+                    pass
+
+
 def _run_shard(job):
     modname, fnname, arg, pid = job
     import importlib
     mod = importlib.import_module(modname)
     fn = getattr(mod, fnname)
     signal.signal(signal.SIGALRM, _on_alarm)
+    reset_library_state()
     try:
         acc = fn(arg)
     except Hang:
@@ -209,6 +272,8 @@ class Run(object):
         self.assumptions = []
         self.rule = ""
         self.cuts = []                # stated caps that were hit
+        self._jobs = {}               # (space index, shard index) -> (module, function, arg) for shard-level replay
+        snapshot_library_state()      # before any library call and before the workers are forked
 
     # ------------------------------------------------------------------ exploring
     def explore(self, name, modname, fnname, shard_args, exhaustive=True, note=None):
@@ -222,9 +287,13 @@ class Run(object):
         else:
             results = [_run_shard(j) for j in jobs]
         st = tr = 0
-        for acc in results:
+        for i, acc in enumerate(results):
             st += acc.states
             tr += acc.transitions
+            if acc.viol:
+                self._jobs[(len(self.spaces), i)] = jobs[i][:3]
+                for v in acc.viol:
+                    v["shard"] = (len(self.spaces), i)
             self.merge(acc)
         self.spaces.append({"name": name, "shards": len(jobs), "states": st, "transitions": tr,
                             "wall_s": round(time.time() - t0, 2), "exhaustive": exhaustive,
@@ -307,6 +376,22 @@ class Run(object):
                     if r.returncode != 1:
                         ok = False
                         break
+                if not ok and v.get("shard") in self._jobs:
+                    # not a function of the input alone: replay the whole shard (which starts from the restored
+                    # module state, so it is a function of its argument) and look for the same violation again
+                    p2 = self._write_shard_replay(v, p_)
+                    ok = p2 is not None
+                    for _ in range(2 if ok else 0):
+                        r = subprocess.run([os.path.join(VERIF, "check"), self.pid, "--replay", p2],
+                                           capture_output=True, text=True)
+                        if r.returncode != 1:
+                            ok = False
+                            break
+                    if ok:
+                        sys.stderr.write("  note: %s reproduces only after the preceding states of its shard "
+                                         "(history-dependent result); shard-level replay %s\n" % (p_, p2))
+                        self.total.counters["violations_reproduced_by_shard_history_only"] += 1
+                        p_ = p2
                 if ok:
                     keep.append((v, p_))
                     if len(keep) >= 3:
@@ -332,6 +417,26 @@ class Run(object):
                              self.pid, self.tier, self.seed, t.states, t.transitions, t.conform,
                              len(t.outcomes), nviol, sum(t.known.values()), wall))
         return 1 if nviol else 0
+
+    def _write_shard_replay(self, v, single_path):
+        import base64
+        import pickle
+        modname, fnname, arg = self._jobs[v["shard"]]
+        try:
+            blob = base64.b64encode(pickle.dumps(arg, protocol=4)).decode("ascii")
+        except Exception:  # noqa
+            return None
+        p = single_path[:-5] + ".shard.json"
+        with open(p, "w") as f:
+            json.dump({"property": self.pid, "module": self.module, "kind": "shard-history",
+                       "shard_module": modname, "shard_fn": fnname, "arg_pickle_b64": blob,
+                       "clause": v["clause"], "site": v["site"], "case": v["case"], "observed": v["observed"],
+                       "expected": v["expected"],
+                       "note": "history-dependent: the violating state is reached by running the shard from the "
+                               "restored module state; the single case alone does not reproduce it",
+                       "how_to_replay": "cd /verif && ./check %s --replay %s" % (self.pid, p)}, f, indent=1,
+                      sort_keys=True)
+        return p
 
     def write_evidence(self, wall, nviol):
         t = self.total
